@@ -35,6 +35,9 @@ def run(ctx):
         if rng.random() < 0.5 and present:
             # remove the oldest ones, as cleaning does
             present = present[rng.randint(0, len(present) - 1):]
+        if t % 6 == 4:
+            # beyond 99 invocations a day, short counters still present
+            present = sorted(set(rng.sample([1, 5, 42, 98, 99, 100, 101, 250, 999, 1000], rng.randint(2, 5))))
         names = ["%s.%d" % (today, i) for i in present]
         for other in rng.sample(["2020-01-01.1", "2020-01-01.2", "1999-12-31.7", today[:8] + "00.3"], rng.randint(0, 3)):
             names.append(other)
